@@ -1,15 +1,17 @@
 #!/bin/sh
 # usage: tools/run_seed.sh <seeded-name> <ID> [<ID>...]
-# Applies the seeded patch to /repo, runs the quick checks, ALWAYS reverts.
+# Applies the seeded patch to a SCRATCH worktree of /repo (never to /repo
+# itself), runs the checks against it (VERIF_REPO), removes the worktree.
+# Evidence and replays of these runs go to a scratch directory.
 name="$1"; shift
 S=/verif/seeded/$name
+W=/tmp/wt/seedrun_$name.$$
 cd /verif || exit 2
-[ -z "$(git -C /repo status --porcelain)" ] || { echo "/repo not clean"; exit 2; }
-git -C /repo apply "$S/patch.diff" || { echo "patch does not apply"; exit 2; }
-trap 'git -C /repo checkout -- . ' EXIT INT TERM
+git -C /repo worktree add -q --detach "$W" HEAD || exit 2
+trap 'git -C /repo worktree remove --force "$W" 2>/dev/null; rm -rf "$W.out"' EXIT INT TERM
+git -C "$W" apply "$S/patch.diff" || { echo "patch does not apply"; exit 2; }
+mkdir -p "$W.out"
 for id in "$@"; do
   echo "== $name vs $id"
-  VERIF_SEEDRUN=1 ./check "$id" --tier "${TIER:-quick}" 2>&1 | grep -E "^(VIOLATION|KNOWN|C[0-9]+ tier)" | head -8
+  VERIF_REPO="$W" VERIF_EVIDENCE_DIR="$W.out" VERIF_REPLAY_DIR="$W.out" ./check "$id" --tier "${TIER:-quick}" 2>&1 | grep -E "^(VIOLATION|KNOWN|C[0-9]+ tier)" | head -6 | sed "s#$W.out#<scratch>#"
 done
-rm -f /verif/replays/*.json
-git -C /verif checkout -- evidence 2>/dev/null
